@@ -142,6 +142,27 @@ func GenImport(r *simrt.Rand, faultsOK bool) *ImportProg {
 			p.Main = append(p.Main, ImportStmt{K: "gomod", M: []string{"math", "sys", "time"}[r.Intn(3)], ID: next()})
 		}
 	}
+	// a module whose body raises AFTER it imported others: the importer catches
+	// the exception; the modules it had imported stay imported (run once, keep
+	// their state).  The failing module itself is imported by exactly one
+	// statement (re-importing it re-executes it in CPython, which the property
+	// does not speak about).
+	if r.Chance(1, 4) {
+		bad := ImportMod{Name: "badmod", Dir: "lib0"}
+		nd := 1 + r.Intn(3)
+		for k := 0; k < nd; k++ {
+			dep := names[r.Intn(len(names))]
+			bad.Body = append(bad.Body, ImportStmt{K: "imp", Form: "plain", M: dep, ID: next()})
+			if r.Chance(1, 2) {
+				bad.Body = append(bad.Body, ImportStmt{K: "mut", M: dep, V: 7000 + k, ID: next()})
+			}
+		}
+		bad.Body = append(bad.Body, ImportStmt{K: "raise", ID: next()})
+		p.Mods = append(p.Mods, bad)
+		st := ImportStmt{K: "impbad", M: "badmod", ID: next()}
+		pos := r.Intn(len(p.Main) + 1)
+		p.Main = append(p.Main[:pos], append([]ImportStmt{st}, p.Main[pos:]...)...)
+	}
 	// the environment changes while the program runs: a module that was
 	// missing appears (file created; or a sys.path entry replaced in place),
 	// and a repeated import must then find it
@@ -289,6 +310,10 @@ func renderImportStmt(b *strings.Builder, s ImportStmt, me string) {
 		fmt.Fprintf(b, "import %s as _t\n_t.val = %d\nlog(%s, \"mut\", \"%s\", %d)\n", s.M, s.V, tag, s.M, s.V)
 	case "read":
 		fmt.Fprintf(b, "try:\n    import %s as _t\n    log(%s, \"read\", \"%s\", _t.val, _t.x)\nexcept (ImportError, AttributeError) as _e:\n    log(%s, \"read\", \"%s\", exc_name(_e))\n", s.M, tag, s.M, tag, s.M)
+	case "raise":
+		fmt.Fprintf(b, "log(%s, \"raising\")\nraise ValueError(\"boom\")\n", tag)
+	case "impbad":
+		fmt.Fprintf(b, "try:\n    import %s\n    log(%s, \"impbad\", \"no error\")\nexcept ValueError as _e:\n    log(%s, \"impbad\", exc_name(_e))\n", s.M, tag, tag)
 	case "late", "swap":
 		fmt.Fprintf(b, "try:\n    import %s\n    log(%s, \"early\", \"ok\")\nexcept ImportError as _e:\n    log(%s, \"early\", exc_name(_e))\n", s.M, tag, tag)
 		if s.K == "late" {
